@@ -405,6 +405,75 @@ def mix_cases(tier):
     return out, dims
 
 
+# ---------------------------------------------------------------------------------------------
+# history phase: composition parameters updated on one live chemistry/model, every sequence up to
+# the depth bound, against a fresh model with the net settings and the mixture invariants
+# ---------------------------------------------------------------------------------------------
+HIST_ALPHABET = [['He_H2', 0.05], ['He_H2', 1.0], ['N2_H2', 1e-3], ['N2_H2', 0.4], ['H2O', 1e-7], ['H2O', 0.2],
+                 ['CH4', 1e-5], ['CH4', 0.5], ['CO', 0.0], ['CO', 0.29], ['T', 700.0]]
+HIST_REDUCED = [['He_H2', 0.05], ['He_H2', 1.0], ['H2O', 0.2], ['CH4', 0.5], ['N2_H2', 0.4]]
+
+
+def hist_build(case):
+    from mc import fixtures as fx
+    from taurex.cache import OpacityCache
+    fx.reset_caches()
+    for mol in ('H2O', 'CH4'):
+        OpacityCache().add_opacity(fx.TinyOp(mol, fx.WN_GRIDS[4], fx.T_GRIDS[3], fx.P_GRIDS[3],
+                                             fx.table(3, 3, 4, 1e-27, salt=('c10h', mol))))
+    return fx.build_model({'kind': 'transmission', 'N': case['N'], 'T': ['iso', 1200.0],
+                           'fill': [['H2', 'He', 'N2'], [0.17, 0.01]],
+                           'gases': [['H2O', ['const', 1e-4]], ['CH4', ['const', 1e-6]], ['CO', ['const', 1e-3]]],
+                           'contribs': ['abs']})
+
+
+def _mix_eval(r, live, fresh, sig):
+    lc, fc = live.chemistry, fresh.chemistry
+    r.check(list(lc.activeGases) == list(fc.activeGases) and list(lc.inactiveGases) == list(fc.inactiveGases),
+            'history-gas-lists', 'history-gases/' + sig)
+    la, fa = np.asarray(lc.activeGasMixProfile, float), np.asarray(fc.activeGasMixProfile, float)
+    li, fi = np.asarray(lc.inactiveGasMixProfile, float), np.asarray(fc.inactiveGasMixProfile, float)
+    r.eq(la, fa, 'history-mixture', 'history-active/' + sig, rtol=1e-12, atol=0.0)
+    r.eq(li, fi, 'history-mixture', 'history-inactive/' + sig, rtol=1e-12, atol=0.0)
+    r.eq(np.asarray(lc.muProfile, float), np.asarray(fc.muProfile, float), 'history-mu', 'history-mu/' + sig, rtol=1e-12)
+    tot = la.sum(axis=0) + li.sum(axis=0)
+    r.eq(tot, np.ones_like(tot), 'history-sum-to-one', 'history-sum/' + sig, rtol=0.0, atol=1e-12)
+    r.check(bool(np.all(la >= 0) and np.all(li >= 0)), 'history-non-negative', 'history-negative/' + sig)
+    names = list(lc.inactiveGases)
+    if 'H2' in names and 'He' in names:
+        h2, he = li[names.index('H2')], li[names.index('He')]
+        want = live.fittingParameters['He_H2'][2]()
+        r.eq(he / h2, np.full_like(h2, want), 'history-fill-ratio', 'history-fill-ratio/' + sig, rtol=1e-9)
+
+
+def hist_fn(case):
+    from mc import rthist, core as _core
+    from taurex.exceptions import InvalidModelException
+    r = _core.R(case)
+    # histories that drive the traces above one must be rejected, live and fresh alike: skip the comparison then
+    tot = {'H2O': 1e-4, 'CH4': 1e-6, 'CO': 1e-3}
+    hist = []
+    for op in case['hist']:
+        if op[0] in tot:
+            tot[op[0]] = op[1]
+        if sum(tot.values()) > 1.0:
+            break
+        hist.append(op)
+    rthist.run_history(r, hist, lambda: hist_build(case), 'composition', extra_eval=_mix_eval)
+    if len(hist) < len(case['hist']):
+        # the next update makes the traces exceed one: the live model must reject it as invalid
+        live = hist_build(case)
+        rthist.evaluate(live)
+        for op in hist + [case['hist'][len(hist)]]:
+            rthist.apply_op(live, op)
+        try:
+            rthist.evaluate(live)
+            r.check(False, 'history-rejects-above-unity', 'history-no-rejection')
+        except InvalidModelException:
+            r.check(True, 'history-rejects-above-unity')
+    return r
+
+
 def explore(ctx):
     pc, ns = profile_cases(ctx.tier)
     ctx.bounds.update(profile_layer_counts=ns, profile_cases=len(pc))
@@ -413,3 +482,13 @@ def explore(ctx):
     ctx.bounds.update(mix_cases=len(mc_), mix_dims={k: len(v) for k, v in dims.items()},
                       mix_deviations=2)
     ctx.run_cases('mix_case', mc_, phase='mix')
+    from mc import rthist
+    if ctx.tier == 'thorough':
+        hs = rthist.histories(HIST_ALPHABET, 3, HIST_REDUCED, 4)
+        ns_ = [3, 2]
+    else:
+        hs = rthist.histories(HIST_ALPHABET, 2, HIST_REDUCED, 3)
+        ns_ = [3]
+    hcases = [{'N': n, 'hist': h} for n in ns_ for h in hs]
+    ctx.bounds.update(histories=len(hcases), history_depth=3 if ctx.tier == 'thorough' else 2)
+    ctx.run_cases('hist_fn', hcases, phase='histories')
